@@ -453,5 +453,8 @@ PROPS["C12"]["rules"] = PROPS["C12"]["rules"] + [rules_dd.rule_failure_tested_wi
 PROPS["C12"]["explanation"] += " (NARROWFAIL) no search result of the directory code is compared with the failure value after narrowing to 16 bits (65535 is a legal reference)."
 PROPS["C20"]["rules"] = PROPS["C20"]["rules"] + [rules_dd.rule_failure_tested_wide]
 
+PROPS["C19"]["rules"] = PROPS["C19"]["rules"] + [rules_tools.rule_empty_keeps_attrs]
+PROPS["C19"]["explanation"] += " (EMPTYATTR) the exit hdiff takes for a data set without data still reaches the attribute comparison."
+
 NOT_APPLICABLE = {}
 
